@@ -146,6 +146,33 @@ type tracer struct {
 	maxDep  int
 	aluSeen int
 	pend    map[int]*pendAlu
+	pendJ   map[int]*pendJump
+}
+type pendJump struct {
+	dest  *big.Int
+	valid bool // by the reference rule: inside the code, a JUMPDEST byte, not operand data of a PUSH
+}
+
+// refValidJump: the Yellow Paper's D(c): positions of JUMPDEST instructions, skipping PUSH operands.
+func refValidJump(code []byte, dest *big.Int) bool {
+	if !dest.IsUint64() || dest.Uint64() >= uint64(len(code)) {
+		return false
+	}
+	d := int(dest.Uint64())
+	for pc := 0; pc < len(code); {
+		if pc == d {
+			return code[pc] == 0x5b
+		}
+		if code[pc] >= 0x60 && code[pc] <= 0x7f {
+			pc += int(code[pc]-0x5f) + 1
+		} else {
+			pc++
+		}
+		if pc > d {
+			return false
+		}
+	}
+	return false
 }
 type pendAlu struct {
 	op   string
@@ -241,6 +268,12 @@ func (t *tracer) CaptureEnter(typ vm.OpCode, from, to common.Address, input []by
 }
 func (t *tracer) CaptureExit(output []byte, gasUsed uint64, err error) { t.exit(err) }
 func (t *tracer) CaptureFault(pc uint64, op vm.OpCode, gas, cost uint64, memory *vm.Memory, stack *vm.Stack, contract *vm.Contract, depth int, err error) {
+	if p := t.pendJ[depth]; p != nil {
+		delete(t.pendJ, depth)
+		if err == vm.ErrInvalidJump && p.valid {
+			t.fails = append(t.fails, fmt.Sprintf("jump: destination %x is a JUMPDEST instruction but the EVM rejected it", p.dest))
+		}
+	}
 }
 
 func (t *tracer) CaptureState(pc uint64, op vm.OpCode, gas, cost uint64, memory *vm.Memory, stack *vm.Stack, contract *vm.Contract, rData []byte, depth int, err error) {
@@ -253,11 +286,21 @@ func (t *tracer) CaptureState(pc uint64, op vm.OpCode, gas, cost uint64, memory 
 			t.fails = append(t.fails, fmt.Sprintf("alu: %s(%x, %x, %x) = %x on the EVM, %x by its mathematical definition", p.op, p.a, p.b, p.c, got, p.want))
 		}
 	}
+	if p := t.pendJ[depth]; p != nil {
+		delete(t.pendJ, depth)
+		if p.dest.IsUint64() && p.dest.Uint64() == pc && !p.valid {
+			t.fails = append(t.fails, fmt.Sprintf("jump: the EVM jumped to %x, which is not a JUMPDEST instruction (push data or no JUMPDEST)", p.dest))
+		}
+	}
 	if err != nil {
 		return
 	}
 	if depth == 1 {
 		t.steps = append(t.steps, [2]uint64{gas, cost})
+	}
+	if (op == vm.JUMP && len(data) >= 1) || (op == vm.JUMPI && len(data) >= 2 && !data[len(data)-2].IsZero()) {
+		d := data[len(data)-1].ToBig()
+		t.pendJ[depth] = &pendJump{dest: d, valid: refValidJump(contract.Code, d)}
 	}
 	t.ops[op.String()]++
 	if name, ok := aluName[byte(op)]; ok {
@@ -319,7 +362,7 @@ func runImpl(c *Case, gas uint64, collectSteps bool) (o Obs) {
 			hx.Fatal("SetCode: %v", err)
 		}
 	}
-	tr := &tracer{known: map[string]struct{}{}, ops: map[string]int{}, pend: map[int]*pendAlu{}}
+	tr := &tracer{known: map[string]struct{}{}, ops: map[string]int{}, pend: map[int]*pendAlu{}, pendJ: map[int]*pendJump{}}
 	for _, s := range c.Storage {
 		st.SetStorage(addrOf(s.Addr), b32Of(s.Key), b32Of(s.Val))
 		a, k := common.Address(addrOf(s.Addr)), common.Hash(b32Of(s.Key))
